@@ -60,6 +60,19 @@ Proof.
 Qed.
 Print Assumptions C21_previous_is_page_before.
 
+(* following previous repeatedly from page k+1 visits pages k, k-1, ..., 1 and stops there *)
+Theorem C21_previous_walks_back : forall ks size asc fuel pages k pk,
+  NoDup ks -> (1 <= size)%nat -> (length ks < fuel)%nat ->
+  walk_next fuel ks (init_query size asc) = Some pages -> nth_error pages k = Some pk ->
+  exists back, walk_prev (S k) ks pk = Some back /\ map p_data back = rev (map p_data (firstn k pages)).
+Proof.
+  intros ks size asc fuel pages k pk Hnd Hs Hf Hw Hk.
+  pose proof (walk_init_back ks size asc Hnd Hs fuel pages Hw) as Hb.
+  destruct (back_ok_nth ks size Hs pages [] k pk Hb Hk (S k)) as (back & Hwp & Hm); [simpl; lia|].
+  exists back. split; assumption.
+Qed.
+Print Assumptions C21_previous_walks_back.
+
 (* HasMore of a page reached by next  <=>  there are rows after the page *)
 Theorem C21_has_more_iff : forall ks size asc fuel pages k p,
   NoDup ks -> (1 <= size)%nat -> (length ks < fuel)%nat ->
